@@ -78,7 +78,7 @@ theorem flip_msb_eq (bs : Bytes) (hbs : Bytes.ok bs) :
       intro v k hv
       simp [Py.setItem, Py.normIndex, Py.len, hneg, h0, hv]
     have t := flip_table ⟨c.toNat, by omega⟩
-    simp only [hget, Py.bitAnd, Py.bitXor, hc.1, and_self, if_true, show (0 : Int) ≤ 127 by omega, show (0 : Int) ≤ 128 by omega]
+    simp only [Src.Enc.flip_msb_loop1_body, hget, Py.bitAnd, Py.bitXor, hc.1, and_self, if_true, show (0 : Int) ≤ 127 by omega, show (0 : Int) ≤ 128 by omega]
     unfold flipI
     by_cases hz : c.toNat &&& 127 = 0
     · simp [hz]
@@ -95,4 +95,283 @@ theorem flip_msb_eq (bs : Bytes) (hbs : Bytes.ok bs) :
     obtain ⟨n, hn, rfl⟩ := hc
     have := hbs n hn
     simp; omega
+
+/-! ### copy loops: `while c(i): buffer[w] = data[r]; i += di; ii += 1`
+
+  Both loops of `interleave` and of `deinterleave` have this shape.  `wT t`, `rT t` are the write and read index of
+  iteration `t`; the buffer after the iterations `ts` is a fold of `List.set`. -/
+
+def wstep (d : List Int) (wT rT : Nat → Int) (B : List Int) (t : Nat) : List Int :=
+  B.set (wT t).toNat (d.getD (rT t).toNat 0)
+
+theorem wfold_length (d : List Int) (wT rT : Nat → Int) (ts : List Nat) : ∀ B : List Int,
+    (ts.foldl (wstep d wT rT) B).length = B.length := by
+  induction ts with
+  | nil => intro B; rfl
+  | cons t ts ih => intro B; simp [List.foldl_cons, ih, wstep]
+
+theorem wfold_unchanged (d : List Int) (wT rT : Nat → Int) (p : Nat) (ts : List Nat) : ∀ B : List Int,
+    (∀ t ∈ ts, (wT t).toNat ≠ p) → (ts.foldl (wstep d wT rT) B).getD p 0 = B.getD p 0 := by
+  induction ts with
+  | nil => intro B _; rfl
+  | cons t ts ih =>
+    intro B h
+    rw [List.foldl_cons, ih _ (fun s hs => h s (by simp [hs]))]
+    have := h t (by simp)
+    simp [wstep, List.getD_eq_getElem?_getD, List.getElem?_set_ne this]
+
+theorem wfold_written (d : List Int) (wT rT : Nat → Int) (t : Nat) : ∀ (m k : Nat) (B : List Int),
+    k ≤ t → t < k + m → (wT t).toNat < B.length →
+    (∀ s, t < s → s < k + m → (wT s).toNat ≠ (wT t).toNat) →
+    ((List.range' k m).foldl (wstep d wT rT) B).getD (wT t).toNat 0 = d.getD (rT t).toNat 0 := by
+  intro m
+  induction m with
+  | zero => intro k B h1 h2; omega
+  | succ m ih =>
+    intro k B hk ht hin hinj
+    rw [List.range'_succ, List.foldl_cons]
+    by_cases hkt : k = t
+    · subst hkt
+      rw [wfold_unchanged]
+      · simp [wstep, List.getD_eq_getElem?_getD, List.getElem?_set_self hin]
+      · intro s hs
+        rw [List.mem_range'_1] at hs
+        exact hinj s (by omega) (by omega)
+    · apply ih (k + 1) _ (by omega) (by omega)
+      · simpa [wstep] using hin
+      · intro s h1 h2; exact hinj s h1 (by omega)
+
+/-- the loop runs exactly the iterations `k, …, T-1` and stops -/
+theorem copy_loop (d : List Int) (n : Nat) (cond : (List Int × Int × Int) → Bool)
+    (body : (List Int × Int × Int) → Py.M (List Int × Int × Int)) (iT iiT wT rT : Nat → Int) (T : Nat)
+    (hcT : ∀ t, t < T → ∀ B, cond (B, iT t, iiT t) = true)
+    (hcF : ∀ B, cond (B, iT T, iiT T) = false)
+    (hbody : ∀ t, t < T → ∀ B : List Int, B.length = n →
+      body (B, iT t, iiT t) = .ok (wstep d wT rT B t, iT (t + 1), iiT (t + 1))) :
+    ∀ (m k : Nat), k + m = T → ∀ B : List Int, B.length = n → ∀ fuel, m ≤ fuel →
+      Py.whileLoop cond body fuel (B, iT k, iiT k) = .ok ((List.range' k m).foldl (wstep d wT rT) B, iT T, iiT T) := by
+  intro m
+  induction m with
+  | zero =>
+    intro k hk B _ fuel _
+    have : k = T := by omega
+    subst this
+    rw [Py.whileLoop_done _ _ _ _ (hcF B)]; rfl
+  | succ m ih =>
+    intro k hk B hB fuel hf
+    obtain ⟨f, rfl⟩ : ∃ f, fuel = f + 1 := ⟨fuel - 1, by omega⟩
+    rw [Py.whileLoop_step _ _ _ _ _ (hcT k (by omega) B) (hbody k (by omega) B hB)]
+    rw [ih (k + 1) (by omega) _ (by simp [wstep, hB]) f (by omega), List.range'_succ, List.foldl_cons]
+
+theorem ext_getD (l1 l2 : List Int) (hl : l1.length = l2.length)
+    (h : ∀ j, j < l1.length → l1.getD j 0 = l2.getD j 0) : l1 = l2 := by
+  apply List.ext_getElem hl
+  intro j h1 h2
+  have := h j h1
+  simpa [List.getD_eq_getElem?_getD, List.getElem?_eq_getElem h1, List.getElem?_eq_getElem h2] using this
+
+theorem getD_ofBytesE (bs : Bytes) (p : Nat) : (ofBytesE bs).getD p 0 = ((bs.getD p 0 : Nat) : Int) := by
+  unfold ofBytesE
+  by_cases h : p < bs.length
+  · simp [List.getD_eq_getElem?_getD, List.getElem?_eq_getElem h, List.getElem?_map]
+  · simp [List.getD_eq_getElem?_getD, List.getElem?_eq_none (Nat.le_of_not_lt h), List.getElem?_map]
+
+theorem getD_range (bs : Bytes) (hbs : Bytes.ok bs) (p : Nat) : bs.getD p 0 < 256 := by
+  by_cases h : p < bs.length
+  · simp only [List.getD_eq_getElem?_getD, List.getElem?_eq_getElem h, Option.getD_some]
+    exact hbs _ (List.getElem_mem h)
+  · simp [List.getD_eq_getElem?_getD, List.getElem?_eq_none (Nat.le_of_not_lt h)]
+
+
+/-! ### interleave -/
+
+theorem getD_permute (idx : Nat → Nat → Nat) (bs : Bytes) (j : Nat) (h : j < bs.length) :
+    (Enc.permute idx bs).getD j 0 = bs.getD (idx bs.length j) 0 := by
+  simp [Enc.permute, List.getD_eq_getElem?_getD, List.getElem?_map, List.getElem?_range h]
+
+theorem length_permute (idx : Nat → Nat → Nat) (bs : Bytes) : (Enc.permute idx bs).length = bs.length := by
+  simp [Enc.permute]
+
+theorem interleave_eq (bs : Bytes) (hbs : Bytes.ok bs) :
+    Src.Enc.interleave (ofBytesE bs) = .ok (ofBytesE (Enc.interleave bs)) := by
+  have hlen : Py.len (ofBytesE bs) = (bs.length : Int) := Py.len_map_ofNat bs
+  have hl' : (ofBytesE bs).length = bs.length := by simp [ofBytesE]
+  -- where the second loop starts: the last odd position
+  obtain ⟨i0, hi0⟩ : ∃ i0 : Int, (bs.length % 2 = 0 ∧ i0 = (bs.length : Int) - 1) ∨ (bs.length % 2 = 1 ∧ i0 = (bs.length : Int) - 2) := by
+    rcases Nat.mod_two_eq_zero_or_one bs.length with h | h
+    · exact ⟨(bs.length : Int) - 1, Or.inl ⟨h, rfl⟩⟩
+    · exact ⟨(bs.length : Int) - 2, Or.inr ⟨h, rfl⟩⟩
+  -- the two loops, as instances of `copy_loop`
+  have L1 := copy_loop (ofBytesE bs) bs.length (Src.Enc.interleave_loop1_cond (ofBytesE bs))
+    (Src.Enc.interleave_loop1_body (ofBytesE bs)) (fun t => 2 * (t : Int)) (fun t => (t : Int)) (fun t => 2 * (t : Int))
+    (fun t => (t : Int)) ((bs.length + 1) / 2)
+    (by intro t ht B; simp [Src.Enc.interleave_loop1_cond, hlen]; omega)
+    (by intro B; simp [Src.Enc.interleave_loop1_cond, hlen]; omega)
+    (by
+      intro t ht B hB
+      have hv := getD_range bs hbs t
+      simp only [Src.Enc.interleave_loop1_body]
+      rw [Py.getItem_ok _ _ _ (by rw [hl']; omega)]
+      simp only [getD_ofBytesE, Int.toNat_natCast]
+      rw [Py.setItem_ok _ _ _ _ (by rw [hB]; omega) (by omega)]
+      simp only [wstep, getD_ofBytesE, Int.toNat_natCast]
+      congr 2 <;> omega)
+  have L2 := copy_loop (ofBytesE bs) bs.length (Src.Enc.interleave_loop2_cond (ofBytesE bs))
+    (Src.Enc.interleave_loop2_body (ofBytesE bs)) (fun t => i0 - 2 * (t : Int))
+    (fun t => (((bs.length + 1) / 2 : Nat) : Int) + (t : Int)) (fun t => i0 - 2 * (t : Int))
+    (fun t => (((bs.length + 1) / 2 : Nat) : Int) + (t : Int)) (bs.length / 2)
+    (by intro t ht B; simp [Src.Enc.interleave_loop2_cond]; omega)
+    (by intro B; simp [Src.Enc.interleave_loop2_cond]; omega)
+    (by
+      intro t ht B hB
+      have hv := getD_range bs hbs ((bs.length + 1) / 2 + t)
+      simp only [Src.Enc.interleave_loop2_body]
+      rw [Py.getItem_ok _ _ _ (by rw [hl']; omega)]
+      have e : ((((bs.length + 1) / 2 : Nat) : Int) + (t : Int)).toNat = (bs.length + 1) / 2 + t := by omega
+      simp only [getD_ofBytesE, e]
+      rw [Py.setItem_ok _ _ _ _ (by rw [hB]; omega) (by omega)]
+      simp only [wstep, getD_ofBytesE, e]
+      have e3 : i0 - 2 * (t : Int) - 2 = i0 - 2 * ((t + 1 : Nat) : Int) := by omega
+      have e4 : (((bs.length + 1) / 2 : Nat) : Int) + (t : Int) + 1 = (((bs.length + 1) / 2 : Nat) : Int) + ((t + 1 : Nat) : Int) := by omega
+      rw [e3, e4])
+  have L1' := L1 ((bs.length + 1) / 2) 0 (by omega) (List.replicate bs.length 0) (by simp) (bs.length + 2) (by omega)
+  simp only [Int.natCast_zero, Int.mul_zero] at L1'
+  unfold Src.Enc.interleave
+  simp only [hlen, Py.zeros_ok, hl', L1', Py.bind_ok]
+  generalize hB1 : List.foldl (wstep (ofBytesE bs) (fun t => 2 * (t : Int)) (fun t => (t : Int))) (List.replicate bs.length 0)
+    (List.range' 0 ((bs.length + 1) / 2)) = B1 at *
+  have hB1len : B1.length = bs.length := by rw [← hB1, wfold_length]; simp
+  have hstart : (if decide (Int.fmod (bs.length : Int) 2 ≠ 0) = true then 2 * (((bs.length + 1) / 2 : Nat) : Int) - 1 - 2
+      else 2 * (((bs.length + 1) / 2 : Nat) : Int) - 1) = i0 - 2 * ((0 : Nat) : Int) := by
+    rw [Int.fmod_eq_emod_of_nonneg _ (by omega)]
+    by_cases h : (bs.length : Int) % 2 = 0
+    · have hd : decide ((bs.length : Int) % 2 ≠ 0) = false := by simp [h]
+      rw [hd]; simp only [Bool.false_eq_true, if_false]; omega
+    · have hd : decide ((bs.length : Int) % 2 ≠ 0) = true := by simp [h]
+      rw [hd]; simp only [if_true]; omega
+  have L2' := L2 (bs.length / 2) 0 (by omega) B1 hB1len (bs.length + 2) (by omega)
+  simp only [hstart]
+  have hst2 : ((((bs.length + 1) / 2 : Nat) : Int)) = (((bs.length + 1) / 2 : Nat) : Int) + ((0 : Nat) : Int) := by simp
+  rw [hst2, L2']
+  simp only [Py.bind_ok]
+  congr 1
+  -- pointwise comparison with the permutation model
+  apply ext_getD
+  · rw [wfold_length, hB1len]; simp [ofBytesE, Enc.interleave, length_permute]
+  · intro j hj
+    rw [wfold_length, hB1len] at hj
+    rw [getD_ofBytesE, Enc.interleave, getD_permute _ _ _ hj]
+    by_cases hpar : j % 2 = 0
+    · -- even position: written by the first loop, untouched by the second
+      rw [wfold_unchanged _ _ _ j _ _ (by
+        intro t ht; rw [List.mem_range'_1] at ht; omega)]
+      have h := wfold_written (ofBytesE bs) (fun t => 2 * (t : Int)) (fun t => (t : Int)) (j / 2) ((bs.length + 1) / 2) 0
+        (List.replicate bs.length 0) (by omega) (by omega) (by simp; omega) (by intro s h1 h2; omega)
+      have e : (2 * ((j / 2 : Nat) : Int)).toNat = j := by omega
+      simp only [e, hB1, Int.toNat_natCast, getD_ofBytesE] at h
+      rw [h]
+      simp [Enc.ilvIdx, hpar]
+    · -- odd position: written by the second loop
+      have hodd : j % 2 = 1 := by omega
+      have hT : (i0.toNat - j) / 2 < bs.length / 2 := by omega
+      have h := wfold_written (ofBytesE bs) (fun t => i0 - 2 * (t : Int))
+        (fun t => (((bs.length + 1) / 2 : Nat) : Int) + (t : Int)) ((i0.toNat - j) / 2) (bs.length / 2) 0 B1
+        (by omega) (by omega) (by rw [hB1len]; omega) (by intro s h1 h2; omega)
+      have e : (i0 - 2 * (((i0.toNat - j) / 2 : Nat) : Int)).toNat = j := by omega
+      have e2 : ((((bs.length + 1) / 2 : Nat) : Int) + (((i0.toNat - j) / 2 : Nat) : Int)).toNat
+          = bs.length - 1 - (j - 1) / 2 := by omega
+      simp only [e, e2, getD_ofBytesE] at h
+      rw [h]
+      simp [Enc.ilvIdx, hpar]
+
+/-! ### deinterleave -/
+
+theorem deinterleave_eq (bs : Bytes) (hbs : Bytes.ok bs) :
+    Src.Enc.deinterleave (ofBytesE bs) = .ok (ofBytesE (Enc.deinterleave bs)) := by
+  have hlen : Py.len (ofBytesE bs) = (bs.length : Int) := Py.len_map_ofNat bs
+  have hl' : (ofBytesE bs).length = bs.length := by simp [ofBytesE]
+  obtain ⟨i0, hi0⟩ : ∃ i0 : Int, (bs.length % 2 = 0 ∧ i0 = (bs.length : Int) - 1) ∨ (bs.length % 2 = 1 ∧ i0 = (bs.length : Int) - 2) := by
+    rcases Nat.mod_two_eq_zero_or_one bs.length with h | h
+    · exact ⟨(bs.length : Int) - 1, Or.inl ⟨h, rfl⟩⟩
+    · exact ⟨(bs.length : Int) - 2, Or.inr ⟨h, rfl⟩⟩
+  have L1 := copy_loop (ofBytesE bs) bs.length (Src.Enc.deinterleave_loop1_cond (ofBytesE bs))
+    (Src.Enc.deinterleave_loop1_body (ofBytesE bs)) (fun t => 2 * (t : Int)) (fun t => (t : Int)) (fun t => (t : Int))
+    (fun t => 2 * (t : Int)) ((bs.length + 1) / 2)
+    (by intro t ht B; simp [Src.Enc.deinterleave_loop1_cond, hlen]; omega)
+    (by intro B; simp [Src.Enc.deinterleave_loop1_cond, hlen]; omega)
+    (by
+      intro t ht B hB
+      have hv := getD_range bs hbs (2 * t)
+      simp only [Src.Enc.deinterleave_loop1_body]
+      rw [Py.getItem_ok _ _ _ (by rw [hl']; omega)]
+      have e : (2 * (t : Int)).toNat = 2 * t := by omega
+      simp only [getD_ofBytesE, e]
+      rw [Py.setItem_ok _ _ _ _ (by rw [hB]; omega) (by omega)]
+      simp only [wstep, getD_ofBytesE, e, Int.toNat_natCast]
+      have e3 : 2 * (t : Int) + 2 = 2 * ((t + 1 : Nat) : Int) := by omega
+      have e4 : (t : Int) + 1 = ((t + 1 : Nat) : Int) := by omega
+      rw [e3, e4])
+  have L2 := copy_loop (ofBytesE bs) bs.length (Src.Enc.deinterleave_loop2_cond (ofBytesE bs))
+    (Src.Enc.deinterleave_loop2_body (ofBytesE bs)) (fun t => i0 - 2 * (t : Int))
+    (fun t => (((bs.length + 1) / 2 : Nat) : Int) + (t : Int))
+    (fun t => (((bs.length + 1) / 2 : Nat) : Int) + (t : Int)) (fun t => i0 - 2 * (t : Int)) (bs.length / 2)
+    (by intro t ht B; simp [Src.Enc.deinterleave_loop2_cond]; omega)
+    (by intro B; simp [Src.Enc.deinterleave_loop2_cond]; omega)
+    (by
+      intro t ht B hB
+      have hv := getD_range bs hbs (i0 - 2 * (t : Int)).toNat
+      simp only [Src.Enc.deinterleave_loop2_body]
+      rw [Py.getItem_ok _ _ _ (by rw [hl']; omega)]
+      simp only [getD_ofBytesE]
+      rw [Py.setItem_ok _ _ _ _ (by rw [hB]; omega) (by omega)]
+      simp only [wstep, getD_ofBytesE]
+      have e3 : i0 - 2 * (t : Int) - 2 = i0 - 2 * ((t + 1 : Nat) : Int) := by omega
+      have e4 : (((bs.length + 1) / 2 : Nat) : Int) + (t : Int) + 1 = (((bs.length + 1) / 2 : Nat) : Int) + ((t + 1 : Nat) : Int) := by omega
+      rw [e3, e4])
+  have L1' := L1 ((bs.length + 1) / 2) 0 (by omega) (List.replicate bs.length 0) (by simp) (bs.length + 2) (by omega)
+  simp only [Int.natCast_zero, Int.mul_zero] at L1'
+  unfold Src.Enc.deinterleave
+  simp only [hlen, Py.zeros_ok, hl', L1', Py.bind_ok]
+  generalize hB1 : List.foldl (wstep (ofBytesE bs) (fun t => (t : Int)) (fun t => 2 * (t : Int))) (List.replicate bs.length 0)
+    (List.range' 0 ((bs.length + 1) / 2)) = B1 at *
+  have hB1len : B1.length = bs.length := by rw [← hB1, wfold_length]; simp
+  have hstart : (if decide (Int.fmod (bs.length : Int) 2 ≠ 0) = true then 2 * (((bs.length + 1) / 2 : Nat) : Int) - 1 - 2
+      else 2 * (((bs.length + 1) / 2 : Nat) : Int) - 1) = i0 - 2 * ((0 : Nat) : Int) := by
+    rw [Int.fmod_eq_emod_of_nonneg _ (by omega)]
+    by_cases h : (bs.length : Int) % 2 = 0
+    · have hd : decide ((bs.length : Int) % 2 ≠ 0) = false := by simp [h]
+      rw [hd]; simp only [Bool.false_eq_true, if_false]; omega
+    · have hd : decide ((bs.length : Int) % 2 ≠ 0) = true := by simp [h]
+      rw [hd]; simp only [if_true]; omega
+  have L2' := L2 (bs.length / 2) 0 (by omega) B1 hB1len (bs.length + 2) (by omega)
+  simp only [hstart]
+  have hst2 : ((((bs.length + 1) / 2 : Nat) : Int)) = (((bs.length + 1) / 2 : Nat) : Int) + ((0 : Nat) : Int) := by simp
+  rw [hst2, L2']
+  simp only [Py.bind_ok]
+  congr 1
+  apply ext_getD
+  · rw [wfold_length, hB1len]; simp [ofBytesE, Enc.deinterleave, length_permute]
+  · intro k hk
+    rw [wfold_length, hB1len] at hk
+    rw [getD_ofBytesE, Enc.deinterleave, getD_permute _ _ _ hk]
+    by_cases hlow : k < (bs.length + 1) / 2
+    · -- first half: written by the first loop, untouched by the second
+      rw [wfold_unchanged _ _ _ k _ _ (by
+        intro t ht; rw [List.mem_range'_1] at ht; omega)]
+      have h := wfold_written (ofBytesE bs) (fun t => (t : Int)) (fun t => 2 * (t : Int)) k ((bs.length + 1) / 2) 0
+        (List.replicate bs.length 0) (by omega) (by omega) (by simp; omega) (by intro s h1 h2; omega)
+      have e : (2 * (k : Int)).toNat = 2 * k := by omega
+      simp only [e, hB1, Int.toNat_natCast, getD_ofBytesE] at h
+      rw [h]
+      simp [Enc.dlvIdx, hlow]
+    · -- second half: written by the second loop
+      have h := wfold_written (ofBytesE bs) (fun t => (((bs.length + 1) / 2 : Nat) : Int) + (t : Int))
+        (fun t => i0 - 2 * (t : Int)) (k - (bs.length + 1) / 2) (bs.length / 2) 0 B1
+        (by omega) (by omega) (by rw [hB1len]; omega) (by intro s h1 h2; omega)
+      have e : ((((bs.length + 1) / 2 : Nat) : Int) + ((k - (bs.length + 1) / 2 : Nat) : Int)).toNat = k := by omega
+      have e2 : (i0 - 2 * ((k - (bs.length + 1) / 2 : Nat) : Int)).toNat = 2 * (bs.length - 1 - k) + 1 := by omega
+      simp only [e, e2, getD_ofBytesE] at h
+      rw [h]
+      simp [Enc.dlvIdx, hlow]
+
 end EoVerif.SrcTie
